@@ -7,6 +7,7 @@
 #include <cstdlib>
 #include <cstring>
 #include <string>
+#include <fstream>
 #include <vector>
 #include <map>
 #include <set>
@@ -117,6 +118,7 @@ inline Args parse_args(int argc, char **argv) {
         else if (k == "--thorough") a.thorough = true;
         else if (k == "--out") a.out = nx();
         else if (k == "--replay") a.replay = nx();
+        else if (k == "--replay-file") { std::ifstream f(nx(), std::ios::binary); a.replay.assign((std::istreambuf_iterator<char>(f)), std::istreambuf_iterator<char>()); }   // cases too long for one argv string
         else if (k == "--data") a.datadir = nx();
         else if (k == "--known") { std::string s = nx(), t; std::istringstream is(s); while (std::getline(is, t, ',')) if (!t.empty()) a.known.insert(t); }
         else a.rest.push_back(k);
